@@ -37,6 +37,7 @@ impl Prop for C04 {
         let cases = ctx.tier.pick(40, 500);
         let mut db = FrontCfg::default_cfg().new_db(Plugins::Default);
         let mut n = 0u64;
+        ctx.shrink_iters = 150;
         ctx.run_shards(1300, cases, |cc: &mut CaseCtx<'_>, ch: &mut Choices| {
             n += 1;
             if n % 60 == 0 {
